@@ -118,3 +118,7 @@ def store_pred(attr, value_pred=None):
 
 def where(fi, node):
     return f"{fi.file}:{getattr(node, 'lineno', '?')} in {fi.qual}"
+
+
+def implies(f, g, constraint=None):
+    return G.implies(f, g, constraint)
